@@ -75,65 +75,28 @@ theorem rd16_lt {m : Bytes} {i w : Nat} (h : rd16 m i = .ok w) : w < 65536 := by
       have := b.toNat_lt
       omega
 
-/-- number of elements of `l` that are not in `V` (candidate pointer targets not yet visited) -/
-def unv (V : List Nat) : List Nat → Nat
-  | [] => 0
-  | x :: xs => (if V.contains x then 0 else 1) + unv V xs
+theorem copy_ok {m : Bytes} {o n : Nat} (h : o + n ≤ m.length) : copy m o n = .ok (slice m o n) := by
+  unfold copy; rw [if_pos h]
 
-theorem unv_le_length (V : List Nat) (l : List Nat) : unv V l ≤ l.length := by
-  induction l with
-  | nil => simp [unv]
-  | cons x xs ih => simp only [unv, List.length_cons]; split <;> omega
+theorem copy_error {m : Bytes} {o n : Nat} {e : Err} (h : copy m o n = .error e) : e = .oob := by
+  unfold copy at h; split at h <;> cases h; rfl
 
-theorem contains_cons_ne (V : List Nat) (p x : Nat) (hx : x ≠ p) : (p :: V).contains x = V.contains x := by
-  simp [hx]
+theorem copy_ok_inv {m : Bytes} {o n : Nat} {x : Bytes} (h : copy m o n = .ok x) : x = slice m o n ∧ o + n ≤ m.length := by
+  unfold copy at h; split at h
+  · cases h; exact ⟨rfl, by assumption⟩
+  · cases h
 
-theorem unv_cons_le (V : List Nat) (p : Nat) (l : List Nat) : unv (p :: V) l ≤ unv V l := by
-  induction l with
-  | nil => simp [unv]
-  | cons x xs ih =>
-    simp only [unv]
-    by_cases hx : x = p
-    · subst hx
-      have : (x :: V).contains x = true := by simp
-      rw [this]
-      simp only [↓reduceIte]
-      split <;> omega
-    · rw [contains_cons_ne V p x hx]
-      omega
+/-- potential of a loop state: compression pointers still allowed + labels still possible + 1 -/
+def pot (s : NSt) : Nat :=
+  (Gen.Dns.maxJumps - s.jumps) + (Gen.Dns.maxName - 1 - s.total) / 2 + 1
 
-theorem unv_cons_lt (V : List Nat) (p : Nat) (l : List Nat) (hp : p ∈ l) (hn : V.contains p = false) :
-    unv (p :: V) l + 1 ≤ unv V l := by
-  induction l with
-  | nil => cases hp
-  | cons x xs ih =>
-    simp only [unv]
-    by_cases hx : x = p
-    · subst hx
-      have h1 := unv_cons_le V x xs
-      have : (x :: V).contains x = true := by simp
-      rw [this, hn]
-      simp
-      omega
-    · have hp' : p ∈ xs := by
-        cases hp with
-        | head => exact absurd rfl hx
-        | tail _ h => exact h
-      have := ih hp'
-      rw [contains_cons_ne V p x hx]
-      omega
-
-/-- potential of a loop state: unvisited pointer targets + remaining labels + 1 -/
-def pot (m : Bytes) (s : NSt) : Nat :=
-  unv s.visited (List.range m.length) + (Gen.Dns.maxName - s.total) / 2 + 1
-
-theorem decodeGo_fuel (m : Bytes) : ∀ (f : Nat) (s : NSt), s.total ≤ Gen.Dns.maxName → pot m s ≤ f →
+theorem decodeGo_fuel (m : Bytes) : ∀ (f : Nat) (s : NSt), s.total + 1 ≤ Gen.Dns.maxName → s.jumps ≤ Gen.Dns.maxJumps → pot s ≤ f →
     decodeGo m f s ≠ .error .fuel := by
   intro f
   induction f with
-  | zero => intro s _ hp; simp [pot] at hp
+  | zero => intro s _ _ hp; simp [pot] at hp
   | succ f ih =>
-    intro s ht hp
+    intro s ht hj hp
     simp only [decodeGo]
     split
     · split
@@ -154,16 +117,17 @@ theorem decodeGo_fuel (m : Bytes) : ∀ (f : Nat) (s : NSt), s.total ≤ Gen.Dns
               · simp
               · split
                 · simp
-                · rename_i hlt hnv
-                  apply ih
-                  · exact ht
-                  · have hmem : w % (Gen.Dns.pointerMask + 1) ∈ List.range m.length := by
-                      simp [List.mem_range]; omega
-                    have hnv' : s.visited.contains (w % (Gen.Dns.pointerMask + 1)) = false := by
-                      simpa using hnv
-                    have := unv_cons_lt s.visited _ _ hmem hnv'
-                    simp only [pot] at hp ⊢
-                    omega
+                · split
+                  · simp
+                  · rename_i hcap
+                    simp only [Gen.Dns.hasJumpCap, Bool.true_and, decide_eq_true_eq] at hcap
+                    apply ih
+                    · exact ht
+                    · show s.jumps + 1 ≤ Gen.Dns.maxJumps
+                      omega
+                    · simp only [pot] at hp ⊢
+                      show (Gen.Dns.maxJumps - (s.jumps + 1)) + (Gen.Dns.maxName - 1 - s.total) / 2 + 1 ≤ f
+                      omega
         · split
           · simp
           · split
@@ -171,31 +135,40 @@ theorem decodeGo_fuel (m : Bytes) : ∀ (f : Nat) (s : NSt), s.total ≤ Gen.Dns
             · split
               · simp
               · split
-                · simp
-                · rename_i h0 _ _ hle
-                  apply ih
-                  · show s.total + (b.toNat + 1) ≤ Gen.Dns.maxName
-                    omega
-                  · simp only [pot] at hp ⊢
-                    have hmax : Gen.Dns.maxName = 253 := rfl
-                    rw [hmax] at hp hle ⊢
-                    omega
+                · rename_i e he
+                  intro h; cases h
+                  cases copy_error he
+                · split
+                  · simp
+                  · rename_i h0 _ _ _ _ hle
+                    have hroot : rootOctet = 1 := rfl
+                    have hmax : Gen.Dns.maxName = 255 := rfl
+                    rw [hroot, hmax] at hle
+                    rw [hmax] at ht
+                    apply ih
+                    · show s.total + (b.toNat + 1) + 1 ≤ Gen.Dns.maxName
+                      rw [hmax]; omega
+                    · exact hj
+                    · simp only [pot] at hp ⊢
+                      show (Gen.Dns.maxJumps - s.jumps) + (Gen.Dns.maxName - 1 - (s.total + (b.toNat + 1))) / 2 + 1 ≤ f
+                      rw [hmax] at hp ⊢
+                      omega
     · split <;> simp
 
-theorem pot_init (m : Bytes) (off : Nat) : pot m { off := off, orig := off } ≤ nameFuel m := by
-  simp only [pot, nameFuel]
-  have : unv [] (List.range m.length) ≤ m.length := by
-    have := unv_le_length [] (List.range m.length)
-    simpa using this
-  have hmax : Gen.Dns.maxName = 253 := rfl
-  rw [hmax]
+theorem pot_init (m : Bytes) (off : Nat) : pot { off := off, orig := off } ≤ nameFuel m := by
+  simp only [pot, nameFuel, Gen.Dns.hasJumpCap, ↓reduceIte, Gen.Dns.maxName, Gen.Dns.maxJumps]
   omega
 
 /-- N4: the name loop never runs out of fuel, for arbitrary bytes and any start offset -/
 theorem decodeName_no_fuel (m : Bytes) (off : Nat) : decodeName m off ≠ .error .fuel := by
   unfold decodeName
   apply decodeGo_fuel
+  · simp [Gen.Dns.maxName]
   · simp
   · exact pot_init m off
+
+/-- the fuel is a constant: the number of loop iterations per name does not depend on the message -/
+theorem nameFuel_const (m : Bytes) : nameFuel m = 257 := by
+  simp [nameFuel, Gen.Dns.hasJumpCap, Gen.Dns.maxName, Gen.Dns.maxJumps]
 
 end Iora.Dns
